@@ -673,6 +673,7 @@ func (it *interp) lookup(x *ast.IndexExpr) (bitdom.Vec, error) {
 // F4: fold shape of updateCRC32 (also extracts the step expression for F3)
 
 type foldShape struct {
+	name   string // function whose fold this is (keys are prefixed with it)
 	fd     *ast.FuncDecl
 	acc    types.Object // parameter 0
 	val    types.Object // range value variable
@@ -704,9 +705,18 @@ func (pr *prover) f4() *foldShape {
 		return nil
 	}
 	acc, slice := types.Object(sig.Params().At(0)), types.Object(sig.Params().At(1))
-	sh.acc = acc
+	sh.name = updateName
+	pr.foldStmts(sh, updateName, acc, slice, fd.Body.List)
+	return sh
+}
 
-	list := fd.Body.List
+// foldStmts checks that list is exactly `loop over slice { [t := e]* acc = step }; return acc` (range or index form) and records
+// the step in sh. name prefixes the obligation keys: updateCRC32's own body, or computeCRC32 when the fold is written out there.
+func (pr *prover) foldStmts(sh *foldShape, name string, acc, slice types.Object, list []ast.Stmt) {
+	r, p := pr.r, pr.p
+	fd := sh.fd
+	k := func(s string) string { return name + "/" + s }
+	sh.acc = acc
 	var rng *ast.RangeStmt
 	var ret *ast.ReturnStmt
 	var idxLoop *ast.ForStmt
@@ -718,7 +728,7 @@ func (pr *prover) f4() *foldShape {
 	if idxLoop != nil && rng == nil {
 		// the same fold written with an index: for i := 0; i < len(bs); i++ { … bs[i] … }
 		pr.f4Index(sh, idxLoop, ret, acc, slice, len(list), k)
-		return sh
+		return
 	}
 	r.Check(len(list) == 2 && rng != nil && ret != nil, "F4", k("body-is-range-then-return"), pr.pos(fd.Body),
 		"the body is exactly: one range statement, one return statement",
@@ -798,7 +808,6 @@ func (pr *prover) f4() *foldShape {
 	}
 	r.Trivial("F4", k("chunking-invariance"), pr.pos(fd),
 		"theorem: with the facts above update(c, bs) = foldl step c bs, hence update(update(c, a), b) = update(c, a||b) for every split; step is total (F3: the index is < 256, no other partial operation)")
-	return sh
 }
 
 // foldBody: zero or more `t := e` (one fresh variable each) followed by one plain assignment `x = e`.
@@ -938,13 +947,17 @@ func (pr *prover) f4Index(sh *foldShape, loop *ast.ForStmt, ret *ast.ReturnStmt,
 func (pr *prover) f3(sh *foldShape) {
 	r := pr.r
 	n := 0
-	defer func() { r.Floor("F3", "state bits compared", n, 32) }()
+	pre, fname := "", updateName
+	if sh != nil && sh.name != "" && sh.name != updateName {
+		pre, fname = sh.name+"/", sh.name
+	}
+	defer func() { r.Floor("F3", pre+"state bits compared", n, 32) }()
 	if sh == nil || sh.rhs == nil || (sh.val == nil && sh.index == nil) {
 		pos := ""
 		if sh != nil {
 			pos = pr.pos(sh.fd)
 		}
-		r.Unknown("F3", updateName+"/step-expression", pos, "the step expression of "+updateName+" could not be located (see F4): no single assignment to the accumulator inside a `for _, b := range` loop")
+		r.Unknown("F3", fname+"/step-expression", pos, "the step expression of "+fname+" could not be located (see F4): no single assignment to the accumulator inside a `for _, b := range` loop")
 		return
 	}
 	crc, b := bitdom.FromAtoms("crc", 32), bitdom.FromAtoms("b", 8)
@@ -973,16 +986,16 @@ func (pr *prover) f3(sh *foldShape) {
 		if u, ok := err.(*unsupported); ok {
 			pos = pr.p.Pos(u.pos)
 		}
-		r.Unknown("F3", updateName+"/step-expression", pos, "construct not interpreted: "+err.Error())
+		r.Unknown("F3", fname+"/step-expression", pos, "construct not interpreted: "+err.Error())
 		return
 	}
 	if len(code) != 32 {
-		r.Unknown("F3", updateName+"/step-expression", pr.pos(sh.rhs), fmt.Sprintf("step expression is %d bits wide, want 32", len(code)))
+		r.Unknown("F3", fname+"/step-expression", pr.pos(sh.rhs), fmt.Sprintf("step expression is %d bits wide, want 32", len(code)))
 		return
 	}
 	ref := refStep(crc, b)
 	for j := 0; j < 32; j++ {
-		key := fmt.Sprintf("bit[%d]", j)
+		key := fmt.Sprintf("%sbit[%d]", pre, j)
 		switch {
 		case code[j].Top:
 			r.Unknown("F3", key, pr.pos(sh.rhs), "the code's bit is not an affine function of the inputs: "+code[j].String())
@@ -1015,6 +1028,9 @@ func (pr *prover) f5() {
 	if len(fd.Body.List) == 1 {
 		ret, _ = fd.Body.List[0].(*ast.ReturnStmt)
 	}
+	if ret == nil && sigOK && pr.f5Inlined(fd, sig, k) {
+		return
+	}
 	if !r.Check(ret != nil && len(ret.Results) == 1, "F5", k("body-is-single-return"), pr.pos(fd.Body), "the body is a single return of one expression",
 		fmt.Sprintf("the body (%d statements) is not a single return statement", len(fd.Body.List))) {
 		for _, s := range []string{"returns-call-unmodified", "init-constant-0xffffffff", "passes-own-parameter"} {
@@ -1045,6 +1061,41 @@ func (pr *prover) f5() {
 		fmt.Sprintf("the initial value %s is not the constant 0xFFFFFFFF (constant=%v value=%#x)", types.ExprString(call.Args[0]), isConst, v))
 	r.Check(pr.useOf(call.Args[1]) == types.Object(sig.Params().At(0)), "F5", k("passes-own-parameter"), pr.pos(call.Args[1]),
 		"the data argument is the function's own parameter (object identity)", "the data argument "+types.ExprString(call.Args[1])+" is not the function's parameter")
+}
+
+// f5Inlined: computeCRC32 with the fold written out — `acc := 0xFFFFFFFF; for … over the parameter { acc = step }; return acc`.
+// The loop is put through the same F4 shape rules and its step through the same F3 comparison with 8 bit-serial steps as
+// updateCRC32's; both steps equal the reference, so computeCRC32(bs) = foldl step 0xFFFFFFFF bs = updateCRC32(0xFFFFFFFF, bs).
+// Reports false (nothing emitted) when the first statement is not a definition of one local.
+func (pr *prover) f5Inlined(fd *ast.FuncDecl, sig *types.Signature, k func(string) string) bool {
+	r, p := pr.r, pr.p
+	list := fd.Body.List
+	if len(list) < 2 {
+		return false
+	}
+	def, ok := list[0].(*ast.AssignStmt)
+	if !ok || def.Tok != token.DEFINE || len(def.Lhs) != 1 || len(def.Rhs) != 1 {
+		return false
+	}
+	id, ok := def.Lhs[0].(*ast.Ident)
+	if !ok || p.Info.Defs[id] == nil {
+		return false
+	}
+	acc := p.Info.Defs[id]
+	r.OK("F5", k("body-is-single-return"), pr.pos(fd.Body), "the body is the fold written out: one definition of the accumulator, the loop, the return (shape checked under F4/"+computeName+")")
+	v, isConst := pr.constU64(def.Rhs[0])
+	r.Check(isConst && v == Init && isBasic(acc.Type(), types.Uint32), "F5", k("init-constant-0xffffffff"), pr.pos(def.Rhs[0]),
+		"the accumulator starts as "+types.ExprString(def.Rhs[0])+", the uint32 constant 0xFFFFFFFF",
+		fmt.Sprintf("the accumulator starts as %s, not the uint32 constant 0xFFFFFFFF (constant=%v value=%#x)", types.ExprString(def.Rhs[0]), isConst, v))
+	sh := &foldShape{fd: fd, name: computeName}
+	pr.foldStmts(sh, computeName, acc, types.Object(sig.Params().At(0)), list[1:])
+	pr.f3(sh)
+	r.Check(sh.rhs != nil, "F5", k("returns-call-unmodified"), pr.pos(fd.Body),
+		"the function returns the accumulator of its own fold unmodified (F4/"+computeName+"/returns-accumulator); the fold's step is, bit for bit, the reference step (F3/"+computeName+"/bit[0..31]) and so is "+updateName+"'s: computeCRC32(bs) = "+updateName+"(0xFFFFFFFF, bs)",
+		"the written-out fold was not recognised (see F4/"+computeName+"/*)")
+	r.Check(sh.rhs != nil, "F5", k("passes-own-parameter"), pr.pos(fd.Body),
+		"the fold runs over the function's own parameter (F4/"+computeName+"/range-over-param1)", "the written-out fold was not recognised (see F4/"+computeName+"/*)")
+	return true
 }
 
 // ---------------------------------------------------------------------------------------------
